@@ -205,6 +205,17 @@ def run(res):
     vh, exe = P.base(res, PROP)
     rng = random.Random(res.seed)
     pairs = [gen_case(rng) for _ in range(1500 if res.tier == "quick" else 500000)]
+    # calls that expand to nothing (an empty body, a switched-off conditional, symbols only, a comment) - however many of them - are
+    # not nesting: the calls after them expand as usual
+    for n in (1, 10, 63, 64, 65, 66, 130, 300):
+        for head, call in ((".macro e\n.endm\n", " e"), (".macro e\n.if 0\n nop\n.endif\n.endm\n", " e"), (".macro e\n ; @0\n.endm\n", " e 1"),
+                           (".macro e\n.ifdef NOPE\n .dw @0\n.endif\n.endm\n", " e 5")):
+            real = ".macro r\n .dw @0\n.endm\n"
+            pairs.append((head + real + (call + "\n") * n + " r 7\n" + (call + "\n") * 2 + " r 8\n", " .dw (7)\n .dw (8)\n"))
+        pairs.append((".macro e\n.equ k@0 = @0\n.endm\n.macro r\n .dw @0\n.endm\n" + "".join(" e %d\n" % i for i in range(n)) + " r k0\n",
+                      "".join(".equ k%d = %d\n" % (i, i) for i in range(n)) + " .dw (k0)\n"))
+        # nested: the empty calls stand inside another macro's body
+        pairs.append((".macro e\n.endm\n.macro outer\n" + " e\n" * min(n, 70) + " .dw @0\n.endm\n outer 3\n outer 4\n", " .dw (3)\n .dw (4)\n"))
     errs = [(".macro m\n nop\n.endm\n undefined_macro_call\n", "undefined-macro"),
             (".macro m\n ldi r16, @0\n.endm\n m\n", "missing-argument"),
             (".macro m\n ldi @0, @1\n.endm\n m r16\n", "missing-argument"),
